@@ -278,6 +278,14 @@ class Program:
             self.adts[a['path']] = a
         self._fieldless = {}
 
+    def find_drop_impl(self, adt_path):
+        for im in self.facts.get('impls', []):
+            if im.get('trait') in ('core::ops::Drop', 'Drop') and im['self_ty'].get('k') == 'adt' and im['self_ty'].get('path') == adt_path:
+                for it in im['items']:
+                    if it['name'] == 'drop' and it['is_fn'] and it['path'] in self.fns:
+                        return it['path']
+        return None
+
     def find_impl_method(self, trait, self_ty, method):
         """path of `<self_ty as trait>::method` among the crate's impls (dyn dispatch resolution)"""
         if trait is None or self_ty is None:
@@ -368,17 +376,18 @@ def full_domain(prog, tk):
 # interpreter state
 
 class Frame:
-    __slots__ = ('uid', 'fn', 'body', 'bb', 'dest', 'ret_to', 'depth', 'pc')
+    __slots__ = ('uid', 'fn', 'body', 'bb', 'dest', 'ret_to', 'depth', 'pc', 'sub')
 
     def copy(self):
         f = Frame()
-        f.uid, f.fn, f.body, f.bb, f.dest, f.ret_to, f.depth, f.pc = \
-            self.uid, self.fn, self.body, self.bb, self.dest, self.ret_to, self.depth, self.pc
+        f.uid, f.fn, f.body, f.bb, f.dest, f.ret_to, f.depth, f.pc, f.sub = \
+            self.uid, self.fn, self.body, self.bb, self.dest, self.ret_to, self.depth, self.pc, self.sub
         return f
 
     def goto(self, bb):
         self.bb = bb
         self.pc = 0    # index of the next statement of the block to execute
+        self.sub = 0   # progress inside a multi-step terminator (drop glue)
 
 
 class State:
@@ -467,6 +476,8 @@ class Engine:
                     variants.append(tuple(self.mk_sym(t, '%s.%s.%d' % (name, v['name'], i), st)
                                           for i, t in enumerate(ftys)))
                 tagname = name + '.tag'
+                if tagname in self.arg_doms:
+                    live = [x for x in live if x in set(self.arg_doms[tagname])]
                 st.doms[tagname] = frozenset(live)
                 self.full_doms[tagname] = st.doms[tagname]
                 return ('se', ty['path'], ('a', tagname, 'isize'), tuple(variants))
@@ -734,6 +745,7 @@ class Engine:
         pf = Frame()
         pf.uid = st.next_uid; st.next_uid += 1
         pf.fn, pf.body, pf.bb, pf.dest, pf.ret_to, pf.depth, pf.pc = fr.fn, body, 0, None, None, fr.depth + 1, 0
+        pf.sub = 0
         bb = 0
         for _ in range(64):
             blk = body['blocks'][bb]
@@ -961,6 +973,7 @@ class Engine:
         fr = Frame()
         fr.uid = 0; fr.fn = f; fr.body = body; fr.bb = 0; fr.dest = None; fr.ret_to = None; fr.depth = 0
         fr.pc = 0
+        fr.sub = 0
         self.full_doms = {}
         self.sym_counter = 0
         self.arg_doms = dict(arg_doms or {})
@@ -1087,10 +1100,11 @@ class Engine:
                     del st.store[c]
                 if rv is None:
                     rv = ('adt', '(tuple)', 0, ())
-                self.storev(fr.dest, rv, st, caller, None)
-                if fr.dest['l'] == 0:
-                    pass
-                caller.goto(fr.ret_to)
+                if fr.ret_to == 'resume-terminator':
+                    caller.sub += 1       # next step of the caller's multi-step terminator (drop glue)
+                else:
+                    self.storev(fr.dest, rv, st, caller, None)
+                    caller.goto(fr.ret_to)
             elif k == 'unreachable':
                 self.finish(st, 'unreachable', leaves, panic=('unreachable', 'unreachable terminator reached', t['sp'], fr.fn['path']))
                 return
@@ -1100,6 +1114,26 @@ class Engine:
                     v = self.load(t['pl'], st, fr)
                 except Undecided:
                     pass
+                glue = []
+                if v is not None:
+                    try:
+                        cell, path = self.resolve_place(t['pl'], st, fr)
+                        self.drop_glue(self.place_ty(t['pl'], fr), v, cell, path, st, glue, 0)
+                    except Undecided:
+                        raise
+                if fr.sub < len(glue):
+                    impl_fn, cell, path = glue[fr.sub]
+                    callee = self.prog.fns[impl_fn]
+                    if fr.depth + 1 > self.max_depth:
+                        raise Undecided('call depth bound exceeded in drop glue', t['sp'])
+                    nf = Frame()
+                    nf.uid = st.next_uid; st.next_uid += 1
+                    nf.fn = callee; nf.body = callee['body']; nf.bb = 0; nf.pc = 0; nf.sub = 0
+                    nf.dest = None; nf.ret_to = 'resume-terminator'; nf.depth = fr.depth + 1
+                    st.store[('L', nf.uid, 1)] = ('ref', cell, path)
+                    st.frames.append(nf)
+                    st.events.append(('drop-impl', impl_fn, t['sp'], fr.fn['path']))
+                    continue
                 st.events.append(('drop', term_str(v) if v else '?', t['sp'], fr.fn['path']))
                 fr.goto(t['t'])
             elif k == 'call':
@@ -1157,7 +1191,7 @@ class Engine:
             raise Undecided('argument count mismatch calling %s' % callee['path'], sp)
         nf = Frame()
         nf.uid = st.next_uid; st.next_uid += 1
-        nf.fn = callee; nf.body = callee['body']; nf.bb = 0; nf.pc = 0
+        nf.fn = callee; nf.body = callee['body']; nf.bb = 0; nf.pc = 0; nf.sub = 0
         nf.dest = t['dest']; nf.ret_to = t['t']; nf.depth = fr.depth + 1
         for i, v in enumerate(vals):
             st.store[('L', nf.uid, i + 1)] = v
@@ -1361,6 +1395,39 @@ class Engine:
         return path.startswith('core::panicking::') or path.startswith('std::rt::begin_panic') \
             or path in ('core::option::unwrap_failed', 'core::result::unwrap_failed', 'core::option::expect_failed',
                         'core::slice::index::slice_index_fail', 'core::str::slice_error_fail')
+
+    def drop_glue(self, ty, v, cell, path, st, out, depth):
+        """Drop order of a value: its own `Drop::drop` (if its type has a local impl), then its fields in
+        declaration order.  Appends (impl fn path, cell, path) to out."""
+        if ty is None or v is None or depth > 5:
+            return
+        k = ty.get('k')
+        if k == 'adt':
+            impl_fn = self.prog.find_drop_impl(ty['path'])
+            if impl_fn is not None:
+                out.append((impl_fn, cell, path))
+            a = self.prog.adts.get(ty['path'])
+            if a is None or v[0] not in ('adt', 'se'):
+                return
+            if v[0] == 'se':
+                v = self.simp(v, st)
+                if v[0] != 'adt':
+                    return
+            if a['kind'] == 'enum' and not self.prog.is_fieldless_enum(ty['path']):
+                vi = v[2]
+                ftys = self.prog.variant_field_tys(ty, vi)
+                for i, ft in enumerate(ftys):
+                    self.drop_glue(ft, v[3][i] if i < len(v[3]) else None, cell, path + (('d', vi), ('f', i)), st, out, depth + 1)
+            elif a['kind'] == 'struct':
+                ftys = self.prog.variant_field_tys(ty, 0)
+                for i, ft in enumerate(ftys):
+                    self.drop_glue(ft, v[3][i] if i < len(v[3]) else None, cell, path + (('f', i),), st, out, depth + 1)
+        elif k == 'tuple' and v[0] == 'adt':
+            for i, ft in enumerate(ty['elems']):
+                self.drop_glue(ft, v[3][i] if i < len(v[3]) else None, cell, path + (('f', i),), st, out, depth + 1)
+        elif k == 'closure' and v[0] == 'adt':
+            for i, ft in enumerate(ty.get('upvars', [])):
+                self.drop_glue(ft, v[3][i] if i < len(v[3]) else None, cell, path + (('f', i),), st, out, depth + 1)
 
     def place_ty(self, pl, fr):
         ty = fr.body['locals'][pl['l']]['ty']
